@@ -18,6 +18,9 @@ import (
 	"testing"
 	"time"
 
+	. "gopkg.in/check.v1"
+
+	"github.com/snapcore/snapd/overlord/configstate/config"
 	"github.com/snapcore/snapd/overlord/snapstate"
 	"github.com/snapcore/snapd/overlord/snapstate/snapstatetest"
 	"github.com/snapcore/snapd/overlord/state"
@@ -29,6 +32,17 @@ var verifHoldT0 = time.Date(2021, 5, 10, 0, 0, 0, 0, time.UTC)
 const verifHoldForever = 9999999
 
 var verifHoldSnaps = []string{"a", "b", "c"}
+
+// real snap names (only the real-refresh suite uses names other than a/b/c)
+var verifHoldReal = map[string]string{"a": "a", "b": "b", "c": "c"}
+
+func verifHoldRealNames(S []string) []string {
+	out := make([]string, 0, len(S))
+	for _, s := range S {
+		out = append(out, verifHoldReal[s])
+	}
+	return out
+}
 var verifHoldHolders = []string{"a", "b", "c", "system"}
 
 type verifHoldEnt struct {
@@ -114,7 +128,7 @@ func (d *verifHoldDriver) project() verifHoldSt {
 		}
 	}
 	for _, s := range verifHoldSnaps {
-		lr, err := snapstate.LastRefreshed(d.st, s)
+		lr, err := snapstate.LastRefreshed(d.st, verifHoldReal[s])
 		if err != nil {
 			d.fail("LastRefreshed(%s): %v", s, err)
 		}
@@ -122,17 +136,21 @@ func (d *verifHoldDriver) project() verifHoldSt {
 		ps.Hold[s] = map[string]verifHoldEnt{}
 		for _, g := range verifHoldHolders {
 			e := verifHoldEnt{-1, -1, -1}
-			if h := gating[s][g]; h != nil {
+			rg := g
+			if g != "system" {
+				rg = verifHoldReal[g]
+			}
+			if h := gating[verifHoldReal[s]][rg]; h != nil {
 				e = verifHoldEnt{d.hours(h.FirstHeld), d.hours(h.HoldUntil), int(h.Level)}
 			}
 			ps.Hold[s][g] = e
 		}
-		lg, err := snapstate.LongestGatingHold(d.st, s)
+		lg, err := snapstate.LongestGatingHold(d.st, verifHoldReal[s])
 		if err != nil {
 			d.fail("LongestGatingHold: %v", err)
 		}
 		ps.Longest[s] = d.hours(lg)
-		sh, err := snapstate.SystemHold(d.st, s)
+		sh, err := snapstate.SystemHold(d.st, verifHoldReal[s])
 		if err != nil {
 			d.fail("SystemHold: %v", err)
 		}
@@ -141,7 +159,7 @@ func (d *verifHoldDriver) project() verifHoldSt {
 	for g := range gating {
 		found := false
 		for _, s := range verifHoldSnaps {
-			if s == g {
+			if verifHoldReal[s] == g {
 				found = true
 			}
 		}
@@ -155,8 +173,15 @@ func (d *verifHoldDriver) project() verifHoldSt {
 			d.fail("HeldSnaps: %v", err)
 		}
 		m := map[string][]string{}
+		back := map[string]string{"system": "system"}
 		for _, s := range verifHoldSnaps {
-			l := append([]string{}, held[s]...)
+			back[verifHoldReal[s]] = s
+		}
+		for _, s := range verifHoldSnaps {
+			l := []string{}
+			for _, h := range held[verifHoldReal[s]] {
+				l = append(l, back[h])
+			}
 			sort.Strings(l)
 			m[s] = l
 		}
@@ -352,3 +377,118 @@ func TestVerifHold(t *testing.T) {
 	fmt.Printf("VERIF-STATS {\"traces\":%d,\"calls\":%d,\"refused\":%d,\"distinct_hold_states\":%d}\n", n, d.calls, d.refused, len(d.distinct))
 }
 
+
+// ---------------------------------------------------------------------------------------------------------
+// The same protocol with refreshes going through the real request + task runner: snapstate.Update (doInstall
+// resets the gating of the refreshed snap when experimental.gate-auto-refresh-hook is set) and the real
+// link-snap handler (records LastRefreshTime from the mocked clock).
+// ---------------------------------------------------------------------------------------------------------
+
+type verifHoldRealSuite struct {
+	snapmgrBaseTest
+}
+
+func (s *verifHoldRealSuite) TestVerifHoldRealRun(c *C) {
+	out := os.Getenv("VERIF_OUT")
+	n := verifHoldEnvInt("VERIF_N", 5)
+	length := verifHoldEnvInt("VERIF_LEN", 14)
+	seed := verifHoldEnvInt("VERIF_SEED", 1)
+	f, err := os.Create(out)
+	c.Assert(err, IsNil)
+	defer f.Close()
+	d := &verifHoldDriver{w: bufio.NewWriterSize(f, 1<<20), distinct: map[string]bool{}}
+	d.fail = func(format string, a ...interface{}) {
+		d.w.Flush()
+		c.Fatalf("verif hold driver: "+format, a...)
+	}
+	old := verifHoldReal
+	verifHoldReal = map[string]string{"a": "some-snap", "b": "some-other-snap", "c": "services-snap"}
+	defer func() { verifHoldReal = old }()
+	d.st = s.state
+	d.now = verifHoldT0
+	defer snapstate.MockTimeNow(func() time.Time { return d.now })()
+	r := rand.New(rand.NewSource(int64(seed)*104729 + 15))
+	s.fakeStore.refreshRevnos = map[string]snap.Revision{}
+	refreshes := 0
+
+	st := s.state
+	st.Lock()
+	defer st.Unlock()
+	tr := config.NewTransaction(st)
+	c.Assert(tr.Set("core", "experimental.gate-auto-refresh-hook", true), IsNil)
+	tr.Commit()
+
+	nextRev := 20
+	for i := 0; i < n; i++ {
+		d.caseN = i
+		d.now = verifHoldT0
+		st.Set("snaps-hold", nil)
+		for _, sn := range verifHoldSnaps {
+			name := verifHoldReal[sn]
+			si := &snap.SideInfo{RealName: name, SnapID: name + "-id", Revision: snap.R(7), Channel: "latest/stable"}
+			t0 := verifHoldT0
+			snapstate.Set(st, name, &snapstate.SnapState{
+				Active:          true,
+				Sequence:        snapstatetest.NewSequenceFromSnapSideInfos([]*snap.SideInfo{si}),
+				Current:         si.Revision,
+				SnapType:        "app",
+				TrackingChannel: "latest/stable",
+				LastRefreshTime: &t0,
+			})
+		}
+		d.emit("Reset", map[string]interface{}{}, nil)
+		for k := 0; k < length; k++ {
+			p := r.Intn(100)
+			switch {
+			case p < 35:
+				g := verifHoldSnaps[r.Intn(3)]
+				S := verifHoldSubset(r, false)
+				rem, err := snapstate.HoldRefresh(st, snapstate.HoldAutoRefresh, verifHoldReal[g], 0, verifHoldRealNames(S)...)
+				d.emit("Hold", map[string]interface{}{"g": g, "S": S}, d.holdResult(rem, err))
+			case p < 45:
+				S := verifHoldSubset(r, false)
+				durs := []int64{24, 100 * 24, verifHoldForever}
+				dur := durs[r.Intn(len(durs))]
+				lvl := r.Intn(2)
+				holdTime := "forever"
+				if dur != verifHoldForever {
+					holdTime = d.now.Add(time.Duration(dur) * time.Hour).Format(time.RFC3339)
+				}
+				c.Assert(snapstate.HoldRefreshesBySystem(st, snapstate.HoldLevel(lvl), holdTime, verifHoldRealNames(S)), IsNil)
+				d.calls++
+				d.emit("SystemHold", map[string]interface{}{"S": S, "d": dur, "lvl": lvl}, nil)
+			case p < 70:
+				sn := verifHoldSnaps[r.Intn(3)]
+				name := verifHoldReal[sn]
+				nextRev++
+				s.fakeStore.refreshRevnos[name+"-id"] = snap.R(nextRev)
+				ts, err := snapstate.Update(st, name, nil, s.user.ID, snapstate.Flags{})
+				c.Assert(err, IsNil)
+				chg := st.NewChange("refresh-snap", "...")
+				chg.AddAll(ts)
+				s.settle(c)
+				c.Assert(chg.Err(), IsNil)
+				c.Assert(chg.Status(), Equals, state.DoneStatus)
+				refreshes++
+				d.calls++
+				d.emit("Refreshed", map[string]interface{}{"s": sn}, nil)
+			default:
+				dt := verifHoldTicks[r.Intn(len(verifHoldTicks))]
+				d.now = d.now.Add(time.Duration(dt) * time.Hour)
+				d.emit("Tick", map[string]interface{}{"d": dt}, nil)
+			}
+		}
+	}
+	d.w.Flush()
+	fmt.Printf("VERIF-STATS {\"traces\":%d,\"calls\":%d,\"refused\":%d,\"distinct_hold_states\":%d,\"real_refreshes\":%d}\n", n, d.calls, d.refused, len(d.distinct), refreshes)
+}
+
+func TestVerifHoldReal(t *testing.T) {
+	if os.Getenv("VERIF_OUT") == "" {
+		t.Skip("VERIF_OUT not set")
+	}
+	res := Run(&verifHoldRealSuite{}, &RunConf{Output: os.Stdout, Verbose: true, Filter: "TestVerifHoldRealRun"})
+	if !res.Passed() {
+		t.Fatalf("verif hold (real refresh) driver failed: %s", res.String())
+	}
+}
